@@ -13,7 +13,11 @@ From BB Require Import BN Brute SpaceFacts TrapFacts PercolateFacts AttractorFac
   Strict PetriNet Control Meta FilterFacts PetriNetFacts TrappistFacts DiagramStruct DiagramSem1 DiagramCache
   DiagramDepth DiagramComplete Termination ControlFacts MetaFacts Candidates StrictFacts MinExpandFacts CandidatesFacts SymbolicTest SymbolicTestFacts Signed ReductionFacts ControlFacts2 Main Blocks BlocksFacts ObsFacts OwnerFacts CandidatesTerm
   PartialOwner BlockMath BlockComplete ASeeds ASeedsFacts LogChecks SkipRule SkipRuleFacts Names NamesFacts Perm PermFacts SCC SCCFacts SCCStruct ControlFacts3 SCCTerm FilterSym Main2 StrategyFacts ControlFacts4 SkipRuleFacts2 SCCComplete SCCAttr BlockComplete2 ControlFacts5 Iso SkipSem ControlFacts6.
-From BB Require Import PyLib PyLibSd PyLibPerc PyLibCore PyLibControl PySrcControl PySrcControlFacts.
+From BB Require Import PyLib PyLibSd PyLibPerc PyLibCore PyLibControl PySrcControl PySrcControlFacts PySrcFindDriversFacts.
+
+(* translator tie: the function GENERATED from the current text of control.find_drivers (PySrcControl.v; embedding PyLibControl.v: combinations, product, the dict comprehensions, the minimality test) computes the model's find_drivers for both strategies, any bound, any forbidden set and any assumption *)
+Theorem C07_source_find_drivers : forall (N : net) (ts : list (option bool)) (strat : bool) (assume : option space) (maxd : option nat) (forb : option (list nat)), length ts = nvars N -> length (opt_space N assume) = nvars N -> py_find_drivers N ts strat assume maxd forb = Some (find_drivers N ts strat (opt_space N assume) maxd (opt_vars forb)).
+Proof. exact py_find_drivers_spec. Qed.
 
 (* translator tie: the function GENERATED from the current text of control.drivers_of_succession (PySrcControl.v) computes the model's drivers_of_succession (per-step default bound, assumption grown by the LDOI of each step) *)
 Theorem C07_source_drivers_of_succession : forall (N : net) (succ : list (list (option bool))) (strat : bool) (maxd : option nat) (forb : option (list nat)), (forall ts : list (option bool), In ts succ -> length ts = nvars N) -> py_drivers_of_succession N succ strat maxd forb = Some (drivers_of_succession N succ strat (top_space (nvars N)) maxd match forb with | Some l => l | None => [] end).
@@ -58,6 +62,7 @@ Proof. exact ff_filter_covers. Qed.
 Theorem C07_skip_feedforward_antichain : forall (succs : list (list (list (option bool)))) (a b : list space), (forall x : list (list (option bool)), In x succs -> forall (m : list (option bool)) (y : list (list (option bool))), In m x -> In y succs -> forall m' : list (option bool), In m' y -> length m = length m') -> In a (ff_filter succs) -> In b (ff_filter succs) -> subspace (signature a) (signature b) = true -> signature a = signature b.
 Proof. exact ff_filter_antichain. Qed.
 
+Print Assumptions C07_source_find_drivers.
 Print Assumptions C07_source_drivers_of_succession.
 Print Assumptions C07_find_drivers_sound.
 Print Assumptions C07_find_drivers_complete.
